@@ -21,6 +21,7 @@ EXPLANATION = (
 EXPLANATION += (' get_class_component / get_component are three-case lookups without truthiness; a subclass constructor passes only None or its own None-defaulted parameter as tag.')
 EXPLANATION += (" An agent's own tag is written by Agent.__init__ only; the default-tag setter has no raising path; the private fields behind the documented `components` / `tag` views are located through the view properties.")
 EXPLANATION += (' The default-tag setter stores into its receiver only.')
+EXPLANATION += (' `Cls[T]` is get_class_component(T) / the exact-key look-up; the default-tag setter stores its argument on every path.')
 ASSUMPTIONS = ["metaclass __init__ runs for every class statement (language fact)", "user hierarchies have no metaclass conflicts"]
 
 META = CORE + '_MetaAgent'
@@ -159,6 +160,28 @@ def run(cx: Cx):
                      f"tag always wins, NONE included) is replaced", where=late[0].where)
     else:
         cx.ok('R-DISC', f"an agent's tag is written by Agent.__init__ only ({len(tsites)} site(s))", where=cx.where(ainit), function=ainit.qualname)
+    # `Cls[T]` is get_class_component(T): the exact-key look-up, not the first stored type that happens to be a subclass of T
+    mgi = prog.functions.get(META + '.__getitem__')
+    if mgi is not None and len(mgi.params) >= 2:
+        s0, it0 = Sym(mgi.params[0]), Sym(mgi.params[1])
+        okg = True
+        for p in cx.walker.paths(mgi, WalkOptions(unroll=1, callee_raises=False)):
+            if p.end != 'return':
+                continue
+            v = strip_versions(p.last.data.get('value'))
+            fwd = isinstance(v, App) and v.fn == 'call:' + META + '.get_class_component' and tuple(v.args[:2]) == (s0, it0) and \
+                all(a == Const(False) for a in v.args[2:]) and all(val == Const(False) for _, val in (v.kw or ()))
+            direct = v == Sub(Attr(s0, FC), it0) and implies(p.cond, AIn(it0, Attr(s0, FC))) is None or \
+                (v == Const(None) and implies(p.cond, f_not(AIn(it0, Attr(s0, FC)))) is None) or \
+                (isinstance(v, App) and v.fn == '.get' and tuple(v.args) in ((Attr(s0, FC), it0), (Attr(s0, FC), it0, Const(None))))
+            if not (fwd or direct):
+                okg = False
+                cx.violation('R-FWD', mgi.qualname, 'class-subscript-is-the-exact-key-lookup',
+                             f"_MetaAgent.__getitem__ returns {v!r} under [{p.cond!r}]: `Cls[T]` must be the class component stored under "
+                             f"exactly T (None when there is none), like get_class_component(T) and `T in Cls`", where=cx.where(mgi, p.last.line))
+                break
+        if okg:
+            cx.ok('R-FWD', '_MetaAgent.__getitem__ is the exact-key look-up', where=cx.where(mgi), function=mgi.qualname)
     # changing a class's default tag is always accepted: the setter stores what it is given (a validation of its own refuses the
     # values Agent.__init__ accepts as explicit tags - IntEnum members, numpy integers, bool)
     tset = prog.functions.get(META + '.tag#setter')
@@ -170,6 +193,16 @@ def run(cx: Cx):
                          f"change is refused and new untagged instances keep the old default", where=cx.where(tset, refusing[0].last.line))
         else:
             cx.ok('R-GUARD', "the default-tag setter refuses nothing", where=cx.where(tset), function=tset.qualname)
+        vparam = Sym(tset.params[1]) if len(tset.params) > 1 else None
+        for p in cx.walker.paths(tset, WalkOptions(unroll=1, callee_raises=False)):
+            if p.end == 'raise':
+                continue
+            st_ = [e for e in p.events if e.kind == 'store' and e.data.get('loc') == MT]
+            if not (st_ and st_[-1].data.get('value') == vparam):
+                cx.violation('R-GUARD', tset.qualname + '#setter', 'default-tag-change-is-accepted',
+                             f"the setter of a class's default tag does not store the value it is given on a path [{p.cond!r}]: the "
+                             f"assignment is silently dropped and new untagged instances keep the old default", where=cx.where(tset))
+                break
 
     # ------------------------------------------------------------ clause 3: R-DYN + R-NONE
     n = 0
